@@ -1128,4 +1128,33 @@ pub struct MPMCFutSender<T> {""")]),
     fn next(&mut self) -> Option<R> {
         let opref = &mut self.op;
         match self.recv.try_recv_view(|v| opref(v)) {""")]),
+
+    V('free-complete-only-small-backlog', 'C17', ['P12f'], [E(MEM, """        {
+            let _lock = self.mem_manager.try_lock().map(|mut inner| {
+                let epoch = self.epoch.load(Ordering::SeqCst);
+                if inner.try_freeing(epoch) {
+                    self.signal.clear_epoch(Ordering::Release);
+                }
+            });
+        }
+        if elemvec.len() > 20 {
+            self.start_free(&mut elemvec);
+        }""", """        if elemvec.len() > 20 {
+            self.start_free(&mut elemvec);
+        } else {
+            let _lock = self.mem_manager.try_lock().map(|mut inner| {
+                let epoch = self.epoch.load(Ordering::SeqCst);
+                if inner.try_freeing(epoch) {
+                    self.signal.clear_epoch(Ordering::Release);
+                }
+            });
+        }""")]),
+    V('check-no-past', 'C08', ['P7h'], [E(WAIT, "wc.load(Relaxed) == 0 || (!is_tagged(raw) && (seq == cur_count || past(seq, cur_count).1))", "wc.load(Relaxed) == 0 || (!is_tagged(raw) && seq == cur_count)")]),
+    V('clear-epoch-swap-zero', 'C13', ['W10'], [E('src/atomicsignal.rs', "let prev = self.flags.fetch_and(!UPDATE_EPOCH, ord);", "let prev = self.flags.swap(0, ord);")]),
+    V('fut-tryrecv-wrong-list', 'C15', ['P11d'], [E(MQ, """        let rval = self.reader.try_recv();
+        self.prod_wait.notify_all();
+        rval""", """        let rval = self.reader.try_recv();
+        self.wait.notify_all();
+        rval""")]),
+    V('mpmc-unirecv-sync-impl', 'C19', [], [E('src/mpmc.rs', "unsafe impl<T: Send> Send for MPMCUniReceiver<T> {}", "unsafe impl<T: Send> Sync for MPMCUniReceiver<T> {}")]),
 ]
